@@ -149,7 +149,11 @@ where
 	let mut skipped = 0_usize;
 
 	while let Some(frame_or_err) = limited_body.frame().await {
-		let frame = frame_or_err.map_err(HttpError::Stream)?;
+		// A body that outgrows the limit while it is streamed (no or understated `Content-Length`) is too large,
+		// exactly like one whose `Content-Length` says so up front.
+		let frame = frame_or_err.map_err(|e| {
+			if e.is::<http_body_util::LengthLimitError>() { HttpError::TooLarge } else { HttpError::Stream(e) }
+		})?;
 		let Some(data) = frame.data_ref() else {
 			continue;
 		};
